@@ -80,6 +80,8 @@ def _streams():
     S["inc_then_ok"] = ser([hdr(), *frags(0, [0]), eos()], [hdr(), hq_pic(0), eos()])
     S["ld"] = ser([hdr(profile=tables.Profiles.low_delay), ld_pic(0), eos()])
     S["level1"] = ser([hdr(level=1, bvf=1, size=None), hq_pic(0), eos()])
+    S["ld_frag"] = ser([hdr(profile=tables.Profiles.low_delay, major_version=3), *frags(0, [0, 1], code=PC.low_delay_picture_fragment), eos()])
+    S["ld_two"] = ser([hdr(profile=tables.Profiles.low_delay), ld_pic(0), pad(), ld_pic(1), eos()])
     S["no_eos"] = S["hq"][:-13]
     _CACHE["s"] = S
     return S
@@ -99,6 +101,13 @@ def stream_bytes(rng):
     elif r < 0.62 and data:
         i = rng.randrange(len(data))
         data[i:i] = bytes([rng.randrange(256)])
+    elif r < 0.80:
+        # field-aware: the parse code of one data unit replaced by another defined parse code (e.g. an HQ fragment inside a low-delay stream)
+        import vc2_data_tables as tables
+
+        starts = [i for i in range(len(data) - 4) if data[i:i + 4] == b"BBCD"]
+        if starts:
+            data[rng.choice(starts) + 4] = int(rng.choice(list(tables.ParseCodes)))
     return bytes(data)
 
 
